@@ -410,13 +410,23 @@ Theorem c04_exponent_panic_needs_huge_exponents : forall x y p,
 Proof. exact quorem_exponent_panic_needs_huge_exponents. Qed.
 Print Assumptions c04_exponent_panic_needs_huge_exponents.
 
-(* ---- work of the loops driven by a numeric argument (repeat, round, round_up, round_down) is bounded by
-   argument size + result size.  PARTIAL: numeric TEXT arguments are assumed at least as long as the number
-   they denote (true of decimal numerals, not proved here); other loops are not counted ---- *)
+(* ---- work bounded by argument size + result size.  What is counted: the model's own loop for repeat (repeat_loop
+   returns the number of cells it wrote: an instrumented execution, not a formula), and DECLARED costs for the
+   big-integer primitives, which are atomic in Gallina: Decimal.rescale = digit cells of the coefficient + length
+   of the power-of-ten factor it builds (round, round_up, round_down, ToInteger/IntPart of repeat, round*, char;
+   + - and the comparisons bring both operands to the smaller exponent).  PARTIAL: cells, not machine time;
+   numeric TEXT arguments are assumed at least as long as the number they denote (numbers_sized; true of decimal
+   numerals, not proved; satisfiable: numbers_sized_satisfiable); *, /, ^, rendering and the other builtins are
+   not counted — "time bounded by size" for them rests on the sweep's watchdog ---- *)
 Theorem c04_work_bound_partial : forall wclass regex ext f args, numbers_sized args ->
   (work f args <= work_constant * (args_size args + res_size (call_function wclass regex ext f args) + 1))%N.
 Proof. exact work_bound_statement. Qed.
 Print Assumptions c04_work_bound_partial.
+
+Theorem c04_binop_work_bound_partial : forall op x y, numbers_sized [x; y] ->
+  (binop_work op x y <= 2 * (value_size x + value_size y))%N.
+Proof. exact binop_work_bound. Qed.
+Print Assumptions c04_binop_work_bound_partial.
 
 (* ---- (b) obligations over the tables regenerated from the source ---- *)
 
